@@ -44,37 +44,186 @@ theorem heappop_none_iff {α : Type} (lt : α → α → Bool) (l : List α) : h
     simp only [this, iff_false]
     split <;> simp
 
-/-- what a `pop_event` result is at the level of the heap model: the popped live event and the heap left behind -/
-def popConv (r : Except Py.Err Ev × List Ev) : Option (Ev × List Ev) :=
+/-! #### `heappop` without a heap hypothesis: it hands out one element of the array and keeps the others -/
+
+theorem siftDown_length {α : Type} (lt : α → α → Bool) (item : α) :
+    ∀ (pos : Nat) (l : List α), (siftDown lt l pos item).length = l.length := by
+  intro pos
+  induction pos using Nat.strongRecOn with
+  | ind pos ih =>
+    intro l
+    rw [siftDown]
+    split
+    · split
+      · split
+        · rw [ih _ (by omega)]; simp
+        · simp
+      · simp
+    · simp
+
+theorem bubble_range {α : Type} (lt : α → α → Bool) :
+    ∀ (n : Nat) (l : List α) (pos : Nat), l.length - pos = n →
+      (bubble lt l pos).1.length = l.length ∧ (pos < l.length → (bubble lt l pos).2 < l.length) := by
+  intro n
+  induction n using Nat.strongRecOn with
+  | ind n ih =>
+    intro l pos hn
+    rw [bubble]
+    split
+    · rename_i hchild
+      obtain ⟨hcases, hclen⟩ := smallerChild_range lt l pos hchild
+      split
+      · rename_i v hv
+        have := ih (l.length - smallerChild lt l pos) (by omega) (l.set pos v) (smallerChild lt l pos) (by simp)
+        simp only [List.length_set] at this
+        exact ⟨this.1, fun _ => this.2 hclen⟩
+      · exact ⟨rfl, id⟩
+    · exact ⟨rfl, id⟩
+
+/-- `heappop` on ANY array (heap or not): the popped element and the array left behind are the array, as a multiset -/
+theorem heappop_perm {α : Type} [DecidableEq α] (lt : α → α → Bool) {l l' : List α} {m : α}
+    (hp : heappop lt l = some (m, l')) : l.Perm (m :: l') := by
+  unfold heappop at hp
+  split at hp
+  · cases hp
+  · rename_i last hlast
+    have hl : l = l.dropLast ++ [last] := by
+      have hne : l ≠ [] := by intro e; rw [e] at hlast; cases hlast
+      have h1 := List.dropLast_concat_getLast hne
+      have h2 : l.getLast hne = last := by
+        rw [List.getLast?_eq_some_getLast hne] at hlast; cases hlast; rfl
+      rw [h2] at h1; exact h1.symm
+    split at hp
+    · rename_i hd
+      simp only [Option.some.injEq, Prod.mk.injEq] at hp
+      obtain ⟨rfl, rfl⟩ := hp
+      rw [hd] at hl
+      subst hl
+      exact List.Perm.refl _
+    · rename_i ret rest hd
+      rw [hd] at hl
+      obtain ⟨hb1, hb2⟩ := bubble_range lt _ (last :: rest) 0 rfl
+      have hb3 : (bubble lt (last :: rest) 0).2 < (bubble lt (last :: rest) 0).1.length := by
+        rw [hb1]; exact hb2 (by simp)
+      have hres : (ret, siftDown lt (bubble lt (last :: rest) 0).1 (bubble lt (last :: rest) 0).2 last) = (m, l') := by
+        simpa using hp
+      simp only [Prod.mk.injEq] at hres
+      obtain ⟨rfl, rfl⟩ := hres
+      rw [List.perm_iff_count]
+      intro y
+      rw [List.count_cons, siftDown_count lt last _ _ hb3 y,
+        bubble_count lt last _ (last :: rest) 0 rfl (by simp) y]
+      conv => lhs; rw [hl]
+      simp only [List.set_cons_zero, List.count_append, List.count_cons, List.count_nil]
+      omega
+
+/-- what a `pop_event` result is at the level of the heap model: the popped live event and the heap left behind
+    (`some (some …)`), `IndexError` (`some none`); `Py.Err.Fuel` and every other error are NOT outcomes of the Python
+    function and have no counterpart (`none`) -/
+def popConv (r : Except Py.Err Ev × List Ev) : Option (Option (Ev × List Ev)) :=
   match r.1 with
-  | .ok e => some (e, r.2)
+  | .ok e => some (some (e, r.2))
+  | .error Py.Err.Index => some none
   | .error _ => none
 
+/-- one iteration of the generated `while` loop, whatever its textual shape: `heappop`; a live event is returned, a
+    cancelled one is dropped and the loop goes on; nothing to pop is `IndexError` with the list empty -/
+theorem gen_pop_event_while_succ (f : Nat) (self : GenFn.EventList) (evs : List Ev) :
+    GenFn.pop_event.while1 (f + 1) self evs =
+      match heappop Ev.lt evs with
+      | none => (.error Py.Err.Index, [])
+      | some (e, hp') => if e.cancelled then GenFn.pop_event.while1 f self hp' else (.ok e, hp') := by
+  conv => lhs; unfold GenFn.pop_event.while1
+  rw [gen_lt_eq]
+  cases hp : heappop Ev.lt evs with
+  | none =>
+    have := (heappop_none_iff Ev.lt evs).mp hp
+    subst this
+    simp [heappop]
+  | some r =>
+    obtain ⟨e, hp'⟩ := r
+    have hne : evs ≠ [] := fun h => by rw [(heappop_none_iff Ev.lt evs).mpr h] at hp; cases hp
+    have hpos : 0 < evs.length := List.length_pos_iff.mpr hne
+    have hemp : evs.isEmpty = false := by simp [hne]
+    cases hc : e.cancelled <;> simp [hne, hpos, hemp, C14_gen_CANCELED_eq_model, hc]
+
+/-- **fuel adequacy**: with more fuel than events the generated loop never runs out of fuel — `Py.Err.Fuel`, which is not
+    a Python exception, is not a result of `pop_event` (every iteration pops one event). -/
+theorem C14_gen_pop_event_fuel_adequate (fuel : Nat) (evs : List Ev) (hf : evs.length < fuel) :
+    (GenFn.pop_event ⟨evs⟩ fuel).1 ≠ .error Py.Err.Fuel := by
+  simp only [GenFn.pop_event]
+  generalize (⟨evs⟩ : GenFn.EventList) = self
+  induction fuel generalizing evs with
+  | zero => omega
+  | succ f ih =>
+    rw [gen_pop_event_while_succ]
+    cases hp : heappop Ev.lt evs with
+    | none => simp
+    | some r =>
+      obtain ⟨e, hp'⟩ := r
+      have hlen := (heappop_perm Ev.lt hp).length_eq
+      simp only [List.length_cons] at hlen
+      cases hc : e.cancelled
+      · simp [hc]
+      · simpa [hc] using ih hp' (by omega)
+
 /-- `EventList.pop_event` as generated (the `while` loop as a fuel-bounded recursion) = the heap-level model
-    `heapPopLive`: `heappop` until a live event comes out — same event, same heap afterwards, for every fuel; and an
-    `IndexError` is raised only with the event list left empty. -/
+    `heapPopLive`: `heappop` until a live event comes out — same event, same heap afterwards, `IndexError` exactly where
+    the model has no event, for every fuel that the loop does not exhaust (`C14_gen_pop_event_fuel_adequate`: every fuel
+    above the number of events); and an `IndexError` is raised only with the event list left empty. -/
 theorem C14_gen_pop_event_eq_model (fuel : Nat) (evs : List Ev) :
-    popConv (GenFn.pop_event ⟨evs⟩ fuel) = heapPopLive fuel evs ∧
+    ((GenFn.pop_event ⟨evs⟩ fuel).1 ≠ .error Py.Err.Fuel →
+      popConv (GenFn.pop_event ⟨evs⟩ fuel) = some (heapPopLive fuel evs)) ∧
     ((GenFn.pop_event ⟨evs⟩ fuel).1 = .error Py.Err.Index → (GenFn.pop_event ⟨evs⟩ fuel).2 = []) := by
   simp only [GenFn.pop_event]
   generalize (⟨evs⟩ : GenFn.EventList) = self
   induction fuel generalizing evs with
-  | zero => simp [GenFn.pop_event.while1, heapPopLive, popConv]
+  | zero => simp [GenFn.pop_event.while1]
   | succ f ih =>
-    unfold GenFn.pop_event.while1 heapPopLive
-    rw [gen_lt_eq]
+    rw [gen_pop_event_while_succ]
+    unfold heapPopLive
+    cases hp : heappop Ev.lt evs with
+    | none => simp [popConv]
+    | some r =>
+      obtain ⟨e, hp'⟩ := r
+      cases hc : e.cancelled
+      · simp [popConv, hc]
+      · simpa [hc] using ih hp'
+
+/-- **`IndexError` iff no live event**, about the generated text: with adequate fuel `pop_event` raises `IndexError`
+    exactly when every event of the array is cancelled (in particular on the empty list), for any array. -/
+theorem C14_pop_event_index_iff_generated (fuel : Nat) (evs : List Ev) (hf : evs.length < fuel) :
+    (GenFn.pop_event ⟨evs⟩ fuel).1 = .error Py.Err.Index ↔ ∀ e ∈ evs, e.cancelled = true := by
+  simp only [GenFn.pop_event]
+  generalize (⟨evs⟩ : GenFn.EventList) = self
+  induction fuel generalizing evs with
+  | zero => omega
+  | succ f ih =>
+    rw [gen_pop_event_while_succ]
     cases hp : heappop Ev.lt evs with
     | none =>
       have := (heappop_none_iff Ev.lt evs).mp hp
       subst this
-      simp [popConv, heappop]
+      simp
     | some r =>
       obtain ⟨e, hp'⟩ := r
-      have hne : evs ≠ [] := fun h => by rw [(heappop_none_iff Ev.lt evs).mpr h] at hp; cases hp
-      have hpos : 0 < evs.length := List.length_pos_iff.mpr hne
-      have hemp : evs.isEmpty = false := by simp [hne]
-      cases hc : e.cancelled <;> simp [hne, hpos, hemp, C14_gen_CANCELED_eq_model, hc, popConv] <;>
-        (try exact ih hp')
+      have hperm := heappop_perm Ev.lt hp
+      have hlen := hperm.length_eq
+      simp only [List.length_cons] at hlen
+      have hmem : ∀ x, x ∈ evs ↔ x = e ∨ x ∈ hp' := fun x => by rw [hperm.mem_iff, List.mem_cons]
+      cases hc : e.cancelled
+      · simp only [hc, Bool.false_eq_true, if_false]
+        constructor
+        · intro h; cases h
+        · intro h; have := h e ((hmem e).mpr (Or.inl rfl)); rw [hc] at this; cases this
+      · simp only [hc, if_true]
+        rw [ih hp' (by omega)]
+        constructor
+        · intro h x hx
+          rcases (hmem x).mp hx with rfl | hx'
+          · exact hc
+          · exact h x hx'
+        · intro h x hx; exact h x ((hmem x).mpr (Or.inr hx))
 
 /-! ### C14 statements directly over the generated (code-derived) definitions -/
 
@@ -116,7 +265,7 @@ theorem C14_pop_event_generated (fuel : Nat) (hp hp' : List Ev) (e : Ev) (h : Is
     (hpop : GenFn.pop_event ⟨hp⟩ fuel = (.ok e, hp')) :
     e.cancelled = false ∧ e ∈ hp ∧ IsHeap GenFn.lt hp' ∧ ∀ y ∈ hp', GenFn.lt y e = false := by
   rw [gen_lt_eq] at h ⊢
-  have h1 := (C14_gen_pop_event_eq_model fuel hp).1
+  have h1 := (C14_gen_pop_event_eq_model fuel hp).1 (by rw [hpop]; simp)
   rw [hpop] at h1
   obtain ⟨a, b, c, _, d⟩ := heapPopLive_spec fuel hp hp' e h (by simpa [popConv] using h1.symm)
   exact ⟨a, b, c, d⟩
@@ -170,12 +319,21 @@ theorem C14_gen_peak_ahead_eq_model (hp s : List Ev) (r : Refines hp s) (n : Nat
 
 /-! ### simulator.py -/
 
-/-- `Simulator.run_for` as generated makes exactly one call `run_until(self.time + time_delta)` — the model's `runFor`
-    (C15: the pieces a run is chunked into by `run_for` are `run_until` pieces from the current clock). -/
+/-- what the effect list of the generated `run_for` means IN THE MODEL: every recorded call `self.run_until(T)` is the
+    model's `runUntil` to `T`, one after the other on the state the previous one left (`none` = out of fuel). -/
+def interpRunUntil (f : Nat) (es : List Int) (s : Sim) : Option Sim := es.foldlM (fun s T => runUntil f s T) s
+
+/-- `Simulator.run_for` as generated = the model's `runFor`: running the calls the generated text makes (exactly one,
+    `run_until(self.time + time_delta)`) in the model is `runFor` (C15: the pieces a run is chunked into by `run_for` are
+    `run_until` pieces from the current clock). -/
 theorem C15_gen_run_for_eq_model (f : Nat) (s : Sim) (d : Int) :
-    GenFn.run_for ⟨s.now⟩ d = [s.now + d] ∧ runFor f s d = runUntil f s (s.now + d) := by
-  refine ⟨?_, rfl⟩
-  simp only [GenFn.run_for]
-  first
-    | (simp; done)
-    | (simp <;> omega)
+    interpRunUntil f (GenFn.run_for ⟨s.now⟩ d) s = runFor f s d ∧ GenFn.run_for ⟨s.now⟩ d = [s.now + d] := by
+  have h : GenFn.run_for ⟨s.now⟩ d = [s.now + d] := by
+    simp only [GenFn.run_for]
+    first
+      | (simp; done)
+      | (simp <;> omega)
+  rw [h]
+  exact ⟨by simp [interpRunUntil, runFor], rfl⟩
+
+end Mesa.Devs
